@@ -256,6 +256,53 @@ func runC12(c *core.Ctx) {
 		}
 	}
 
+	c.Rule("C12.rejectclean", "a rejected key leaves no trace: in node/bindnode, in every function that reports a repeated key (it constructs datamodel.ErrRepeatedMapKey), no write of a bound Go value (reflect.Value.Set*) can precede that report within the activation - helpers expanded - so the field the repeated key names still holds what was assembled into it", 2)
+	for _, fn := range p.ModFns {
+		pk := core.FuncPkg(fn)
+		if pk == nil || core.RelPkg(pk.Path()) != "node/bindnode" || len(fn.Blocks) == 0 || fn.Synthetic != "" || fn.Parent() != nil {
+			continue
+		}
+		var rejects []ssa.Instruction
+		core.Instrs(fn, func(in ssa.Instruction) {
+			var t types.Type
+			switch x := in.(type) {
+			case *ssa.MakeInterface:
+				t = x.X.Type()
+			case *ssa.Alloc:
+				t = x.Type().(*types.Pointer).Elem()
+			default:
+				return
+			}
+			if nt := namedOfType(t); nt != nil && nt.Obj().Name() == "ErrRepeatedMapKey" {
+				rejects = append(rejects, in)
+			}
+		})
+		if len(rejects) == 0 {
+			continue
+		}
+		isReject := func(in ssa.Instruction) bool {
+			for _, r := range rejects {
+				if in == r {
+					return true
+				}
+			}
+			return false
+		}
+		bad := false
+		var wp []string
+		pos := fn.Pos()
+		for _, ci := range core.CallsR(fn) {
+			o := core.CalleeObj(ci)
+			if o == nil || !strings.HasPrefix(o.Name(), "Set") || !core.IsMethod(ci, "reflect", "Value", o.Name()) {
+				continue
+			}
+			if path, reached := core.Reach(fn, ci, isReject, nil, nil); reached {
+				bad, wp, pos = true, p.Witness(path), ci.Pos()
+			}
+		}
+		c.Check(!bad, core.FuncKey(fn)+"#no-write-before-repeat-report", p.Pos(pos), "nothing is written before the repeated key is reported", "a bound Go value is written on a path that goes on to report a repeated key: the rejection is reported at the right moment, but the field the key names was already reset (an optional field given fresh storage) - the node is not as if the rejected call had not happened", wp...)
+	}
+
 	c.Rule("C12.usableafterreject", "a rejected key leaves the assembler usable: for every string-key assigning method of a map/struct key assembler (basicnode, generated code) that tests the protocol state on entry, every return that rejects the key (a non-nil ErrRepeatedMapKey / ErrInvalidKey) leaves the state field at the assembler's initial (zero) state - the state in which AssembleKey, AssembleEntry and Finish are legal - and not in the mid-key state the method was entered in (the next call would panic)", 2)
 	{
 		nrej := 0
@@ -345,7 +392,7 @@ func runC12(c *core.Ctx) {
 	sub := &core.Ctx{P: p, Prop: "C12"}
 	runC09(sub)
 	for _, o := range sub.Obls {
-		if o.Rule == "C09.repeat" || o.Rule == "C09.unionone" {
+		if o.Rule == "C09.repeat" || o.Rule == "C09.unionone" || (o.Rule == "C09.shiftwidth" && !strings.HasSuffix(o.Construct, "#instance-floor")) {
 			o.Rule = "C12.repeat"
 			o.Property = "C12"
 			c.Obls = append(c.Obls, o)
